@@ -120,11 +120,9 @@ class QCircuitEnhanced(QCircuit):
         uncomputed = set()
 
         for g, qbs, p in reversed(scopy):
-            if (
-                issubclass(g.__class__, gates.NopGate)
-                or qbs[-1] in keep
-                or qbs[-1] in self.free_ancilla_lst
-            ):
+            # Gates on scratch qubits that have already been uncomputed inline are
+            # replayed too: the gates replayed here were controlled by their values
+            if issubclass(g.__class__, gates.NopGate) or qbs[-1] in keep:
                 continue
             uncomputed.add(qbs[-1])
 
